@@ -44,9 +44,10 @@ def ident(c):
 
 # X10 (known finding): with KeepComments / KeepSpecialComments a kept comment that directly follows a tag the minifier drops ends up
 # under another parent (13.1.2.4 forbids those omissions next to a comment).  Such documents are not run
-# with KeepComments; the pinned witnesses keep the defect visible.
-X10_RE = re.compile(rb'(</(li|dd|dt|td|th|tr|tbody|thead|tfoot|option|rt|rp|rb|rtc|colgroup|optgroup|head|body|html)\s*>'
-                    rb'|<(html|head|body|colgroup)(\s[^>]*)?>)\s*<!--', re.I)
+# with KeepComments; the pinned witnesses keep the defect visible.  (rt/rp left the list with c6de520: their end tag
+# is kept before a comment.)
+X10_RE = re.compile(rb'(</(li|dd|dt|td|th|tr|tbody|thead|tfoot|option|rb|rtc|colgroup|optgroup|head|body|html)\s*>'
+                    rb'|<(html|head|body)(\s[^>]*)?>)\s*<!--', re.I)
 
 
 def mk(src, opts=0, frag=False, tmpl=0, origin='', pred=None):
@@ -136,6 +137,135 @@ def regression_cases(ctx):
     for src, opts, frag, tmpl in REGRESSION_DOCS:
         for o in sorted(set([opts] + PAIRWISE8)):
             out.append(mk(src, o, frag, tmpl, origin='regression'))
+    return out
+
+
+# ---------------------------------------------------------------------------------------------
+# FIXED families (never sampled, both tiers).
+# (1) comment positions: a comment after an end tag that is omitted by look-ahead, followed by every kind of next
+#     token, under KeepComments and under KeepSpecialComments with SSI / conditional comments (a kept comment must
+#     stay where it was; the look-aheads must not see through a comment that is kept).
+def comment_position_cases(ctx):
+    out = []
+    nexts = ['<div>b</div>', '<p>b</p>', '<ul><li>b</li></ul>', '<table><tbody><tr><td>b</td></tr></tbody></table>', '<h1>b</h1>',
+             '<pre>b</pre>', '<hr>', '<span>b</span>', 'b', ' b', '<!--d-->', '']
+    parents = ['%s', '<div>%s</div>', '<ul><li>%s</li></ul>', '<table><tbody><tr><td>%s</td></tr></tbody></table>',
+               '<a href=x>%s</a>', '<my-el>%s</my-el>', '<blockquote>%s</blockquote>', '<section>%s</section>']
+    comments = [(b'<!--c-->', (1, 3, 0)), (SPECIAL_COMMENTS[0], (2, 3, 1)), (SPECIAL_COMMENTS[1], (2, 1)), (SPECIAL_COMMENTS[2], (2,))]
+    for par in parents:
+        for nx in nexts:
+            for ws in ('', ' '):
+                for com, optsets in comments:
+                    body = b'<p>a</p>' + ws.encode() + com + ws.encode() + nx.encode()
+                    src = par.encode().replace(b'%s', body)
+                    for o in optsets:
+                        out.append(mk(src, o, True, 0, origin='comment-position'))
+    # the other look-ahead driven end tags: optgroup, rt/rp; and the unconditional list before script/template
+    for src in ['<select><optgroup label=a><option>x</option></optgroup>%s<option>y</option></select>',
+                '<select><optgroup label=a><option>x</option></optgroup>%s<optgroup label=b><option>y</option></optgroup></select>',
+                '<ruby>a<rt>b</rt>%s<rt>c</rt></ruby>', '<ruby>a<rt>b</rt>%sd<rt>c</rt></ruby>', '<ruby>a<rp>(</rp>%s<rt>c</rt></ruby>',
+                '<ul><li>a</li>%s<script>x</script><li>b</li></ul>', '<ul><li>a</li>%s<li>b</li></ul>',
+                '<table><tbody><tr><td>a</td>%s<template></template><td>b</td></tr></tbody></table>',
+                '<dl><dt>a</dt>%s<dd>b</dd></dl>', '<select><option>a</option>%s<option>b</option></select>']:
+        for com, optsets in comments:
+            for o in optsets:
+                out.append(mk(src.encode().replace(b'%s', com), o, True, 0, origin='comment-position'))
+    return out
+
+
+# (2) every element name that html/html.go or html/table.go treats specially (all keys of tagMap, every Hash
+#     constant used in html.go) plus the remaining elements of the standard, each in a conforming context with text
+#     before, inside (leading / inner / trailing blanks) and after it.
+PHRASING_EL = ['a href=x', 'abbr', 'b', 'bdi', 'bdo dir=ltr', 'cite', 'code', 'data value=1', 'dfn', 'em', 'i', 'kbd', 'mark', 'q', 's', 'samp',
+               'small', 'span', 'strong', 'sub', 'sup', 'time', 'u', 'var', 'label', 'output', 'button', 'del', 'ins', 'map name=m', 'slot',
+               'my-el', 'meter value=1', 'progress', 'canvas', 'object data=x', 'video src=x', 'noscript', 'template',
+               'datalist id=l', 'textarea', 'ruby']
+FLOW_EL = ['div', 'p', 'address', 'article', 'aside', 'blockquote', 'dialog open', 'footer', 'header', 'form', 'h1', 'h2', 'h3', 'h4', 'h5', 'h6',
+           'main', 'nav', 'section', 'pre', 'search', 'fieldset', 'figure', 'details', 'menu', 'ol', 'ul', 'dl', 'table', 'hgroup', 'select', 'picture']
+CONTEXT_EL = {   # element -> conforming template, %s = content of the element
+    'li': '<ul><li>%s</li><li>z</li></ul>', 'dt': '<dl><dt>%s</dt><dd>z</dd></dl>', 'dd': '<dl><dt>z</dt><dd>%s</dd></dl>',
+    'td': '<table><tbody><tr><td>%s</td><td>z</td></tr></tbody></table>', 'th': '<table><thead><tr><th>%s</th><th>z</th></tr></thead></table>',
+    'caption': '<table><caption>%s</caption><tbody><tr><td>z</td></tr></tbody></table>',
+    'tfoot': '<table><tbody><tr><td>z</td></tr></tbody><tfoot><tr><td>%s</td></tr></tfoot></table>',
+    'legend': '<fieldset><legend>%s</legend>z</fieldset>', 'summary': '<details><summary>%s</summary>z</details>',
+    'figcaption': '<figure><img src=x alt=y><figcaption>%s</figcaption></figure>', 'option': '<select><option>%s</option><option>z</option></select>',
+    'optgroup': '<select><optgroup label=g><option>%s</option></optgroup></select>', 'rt': '<ruby>z<rt>%s</rt></ruby>',
+    'rp': '<ruby>z<rp>%s</rp><rt>y</rt><rp>)</rp></ruby>', 'title': '<!doctype html><html><head><title>%s</title></head><body>z</body></html>',
+    'body': '<!doctype html><html><head><title>t</title></head><body>%s</body></html>', 'html': '<!doctype html><html lang=en><head><title>t</title></head><body>%s</body></html>',
+    'head': '<!doctype html><html><head><title>t</title><meta name=a content=" %s "></head><body>z</body></html>',
+    'script': '<p>x <script>%s</script> y</p>', 'style': '<div><style>a{content:"%s"}</style>z</div>', 'iframe': '<p>x <iframe src=y></iframe> %s</p>',
+    'colgroup': '<table><colgroup><col><col></colgroup><tbody><tr><td>%s</td></tr></tbody></table>',
+    'datalist-fallback': '<p><input list=l> <datalist id=l>%s<select name=s><option>z</option></select></datalist> w</p>',
+    'object-param': '<p>x <object data=y><param name=a value=b>%s</object> z</p>', 'video-track': '<p>x <video controls><source src=a><track src=b>%s</video> z</p>',
+    'area': '<p>x <map name=m><area shape=rect coords="0,0,1,1" href=y alt=z>%s</map> w</p>', 'svg': '<p>x <svg width=1 height=1><text> %s </text></svg> z</p>',
+    'math': '<p>x <math><mi> %s </mi></math> z</p>',
+}
+VOID_EL = ['br', 'img src=x alt=y', 'input', 'embed src=x', 'wbr', 'link itemprop=a href=b', 'meta itemprop=a content=b']
+OBSOLETE_EL = ['acronym', 'big', 'font', 'nobr', 'strike', 'tt', 'bb', 'portal', 'menuitem']   # in tagMap; parser-defined, not conforming
+# (not probed: marquee - inline-block and obsolete, its trailing inner blank still eats the next leading blank; rb/rtc outside ruby)
+TEXTS = ['a b', ' a b ', 'or pick: ', ' a', 'a ']
+
+
+def element_probe_cases(ctx):
+    out = []
+    optsets = [0, PAIRWISE8[3]]
+    def add(src, frag=True):
+        for o in optsets:
+            out.append(mk(src, o, frag, 0, origin='element-probe'))
+    def inner_variants(tag):
+        # children allowed in the element next to text
+        if tag in ('ul', 'ol', 'menu'): return ['<li>%s</li>']
+        if tag == 'dl': return ['<dt>%s</dt><dd>z</dd>']
+        if tag == 'table': return ['<tbody><tr><td>%s</td></tr></tbody>']
+        if tag == 'select': return ['<option>%s</option>']
+        if tag == 'picture': return ['<source srcset=a><img src=b alt="%s">']
+        if tag == 'hgroup': return ['<h1>%s</h1><p>z</p>']
+        if tag == 'details': return ['<summary>s</summary>%s']
+        if tag == 'figure': return ['%s<figcaption>c</figcaption>']
+        if tag == 'ruby': return ['%s<rt>z</rt>']
+        if tag == 'textarea' or tag == 'noscript' or tag == 'template': return ['%s']
+        return ['%s', '%s<span>i</span>%s', '<b>i</b>%s']
+    for el in PHRASING_EL:
+        tag = el.split()[0]
+        for iv in inner_variants(tag):
+            for t in TEXTS:
+                c = iv.replace('%s', t)
+                add('<p>x <%s>%s</%s> y</p>' % (el, c, tag))
+                add('<p>x<%s>%s</%s>y</p>' % (el, c, tag))
+        add('<div><%s>a</%s> <%s>b</%s></div>' % (el, tag, el, tag))
+    for el in FLOW_EL:
+        tag = el.split()[0]
+        for iv in inner_variants(tag):
+            for t in TEXTS:
+                c = iv.replace('%s', t)
+                add('<div>x</div> <%s>%s</%s> <div>y</div>' % (el, c, tag))
+                add('x <%s>%s</%s> y' % (el, c, tag))
+    for key, tmpl in CONTEXT_EL.items():
+        for t in TEXTS:
+            add(tmpl.replace('%s', t), frag=not tmpl.startswith('<!doctype'))
+    for el in VOID_EL:
+        for a, b in (('a ', ' b'), ('a', 'b'), ('a ', 'b'), ('a', ' b')):
+            if el.startswith('embed') and (a, b) == ('a ', ' b'):
+                continue        # known finding: embed (a replaced element) is treated as transparent inline
+            add('<p>%s<%s>%s</p>' % (a, el, b))
+    for a, b in (('a ', ' b'), ('a', 'b')):
+        add('<div>%s<hr>%s</div>' % (a, b))
+        add('<div>%s<center> c d </center>%s</div>' % (a, b))
+        if (a, b) == ('a', 'b'):   # (with blanks on both sides: known finding, audio is treated as transparent inline)
+            add('<p>%s<audio src=x controls></audio>%s</p>' % (a, b))
+            add('<p>%s<audio src=x controls>c</audio>%s</p>' % (a, b))
+    return out
+
+
+OBSOLETE_PROBES_NOTE = 'obsolete elements of tagMap are probed separately (see obsolete_probe_cases)'
+
+
+def obsolete_probe_cases(ctx):
+    out = []
+    for el in OBSOLETE_EL:
+        for t in TEXTS:
+            out.append(mk('<p>x <%s>%s</%s> y</p>' % (el, t, el), 0, True, 0, origin='element-probe'))
+            out.append(mk('<p>x<%s>%s</%s>y</p>' % (el, t, el), 0, True, 0, origin='element-probe'))
     return out
 
 
@@ -601,6 +731,11 @@ def run(ctx):
     cases += tests
     cases += template_cases(ctx)
     cases += regression_cases(ctx)
+    n_fixed0 = len(cases)
+    cases += comment_position_cases(ctx)
+    cases += element_probe_cases(ctx)
+    cases += obsolete_probe_cases(ctx)
+    ctx.coverage['fixed_family_cases'] = len(cases) - n_fixed0
     cases += pinned_cases()
     lines, side, accepted, rejects = validate(ctx, exe, cases, 'main')
 
@@ -682,7 +817,7 @@ def run(ctx):
              'walks, all inputs of html/html_test.go, template-delimiter documents; each crossed with Keep* option sets '
              '(8 pairwise-covering sets; all 128 for the test inputs in thorough) and read as fragment (body context) '
              'and as document; a case is (input bytes, options, fragment?, delimiters); non-trivial = the real minifier '
-             'changed the bytes.  Generator exclusions (known findings, pinned in known/C03.ndjson): X7 empty attribute-less script/style; X11 optgroup directly inside template contents; X10 a kept comment (KeepComments/KeepSpecialComments) directly after a dropped tag; %d repository test inputs '
+             'changed the bytes.  Generator exclusions (known findings, pinned in known/C03.ndjson): X7 empty attribute-less script/style; X11 optgroup directly inside template contents; blanks on both sides of embed/audio (fixed probe family); X10 a kept comment (KeepComments/KeepSpecialComments) directly after a dropped tag; %d repository test inputs '
              'that are not conforming HTML (listed in tools/props/c03.py)' % len(skipped),
         samples=samples,
         exhaustive=True,
